@@ -193,6 +193,9 @@ pub fn probe_bases(rng: &mut ChaCha8Rng) -> Vec<Base> {
     }
     // (P2) more points than coefficients: k = 2 (4 coefficients), one polynomial at 5 points
     out.push(plain_base(rng, "probe-points-gt-n", 2, &[31], 5, vec![(0, 0), (0, 1), (0, 2), (0, 3), (0, 4)], |_| 0, 0));
+    // (P3) the empty query list is outside the property's quantifier (1..12 polynomials); recorded
+    // as a correspondence line only: `multi_open(&[])` panics on `reduce(..).unwrap()`
+    out.push(Base { k: 2, s: Fq::random(&mut *rng), name: "probe-empty-query-list".into(), polys: vec![poly_of(rng, 4, 0)], pts: vec![], items: vec![], order: vec![] });
     out
 }
 
